@@ -349,7 +349,15 @@ EXTRA_TEXT = {
  "C01": " Later additions: the history generator also produces oracle requests and responses (signed by the currently designated oracle nodes, "
         "paid from the prepaid GAS, incl. wrong / repeated ids), contracts looking at the ledger's past around the traceability horizon, native "
         "settings of Oracle / Notary / Management / attribute fees and deep storage spines; LONG-CHAIN worlds (4 000+ blocks, quiet stretch) in which "
-        "the collecting replicas really remove old blocks and transactions, followed by activity that refers to the removed past.",
+        "the collecting replicas really remove old blocks and transactions, followed by activity that refers to the removed past."
+        " Extension oraclesvc (spec/oraclesvc, harness/c01oraclesvc): 4 (7 thorough) real oracle services on real ledgers with different node-local ledger and service options "
+        "are fed the same blocks by a service-less producer; the blocks carry oracle requests and the response transactions the services built, co-signed (harness network: "
+        "reorder / duplicate / drop / junk / outsider signatures) and sent themselves; the HTTP side is a scripted transport with a gate (no sleeps; quiescence read from the "
+        "goroutine dump). JUDGED (C01): every node's digest equals the producer's at every height and after service or ledger restarts, every produced block is stored, finish is "
+        "applied at most once per request, no panic. BEYOND the statement (observations 'beyond:<Pred>/<ground>', never violations): the response transaction as a function of "
+        "(request, answer class, chain facts), agreement of the signed bytes between nodes, response-code and JSONPath tables, fee bounds, quorum of designated keys, acceptance "
+        "by the ledger, send-when-quorum. OracleSvcImpl: one action per critical section, 14 named deviations refuted by TLC, exhaustive runs up to 1.3M states; behaviours by TLC "
+        "simulation plus seeded schedules; TraceIO judge with 12 self-test corruptions. Found and repaired in /repo: 9e0aa89, 99cbbbc, 8ec6243.",
  "C02": " Later additions: worlds in which flushes run CONCURRENTLY with AddBlock (as the node's own persisting goroutine does; every resulting batch is a "
         "crash point). Extension synccrash (spec/synccrash, harness/c02synccrash): crashes at every atomic batch while state synchronisation COLLECTS - "
         "headers, trie nodes (shared nodes, reference counts, billet collapse, pool rebuilt by traversal), window blocks, the three stage changes and the "
